@@ -33,7 +33,7 @@ SPEC = {'id': 'C15',
              'today; true: kept). Not modelled: protocolName/protocolType pass-through, OffsetFetch/DescribeGroups/ListGroups/DeleteGroups, store errors, the '
              "ticker's real-time jitter.",
  'search_n': 1500,
- 'theorems': ['C15_view_preserved', 'C15_store_is_persisted_memory', 'C15_members_keep_working', 'C15_liveness_preserved', 'C15_nonvacuous'],
+ 'theorems': ['C15_view_preserved', 'C15_store_is_persisted_memory', 'C15_members_keep_working', 'C15_liveness_preserved', 'C15_view_preserved_under_store_faults', 'C15_synced_kept_by_successful_writes', 'C15_nonvacuous'],
  'level_text': 'Machine-checked Coq theorems for every reachable state and both store variants (clone keeps / drops timeouts): the store always holds the '
                'persisted form of the in-memory group; a coordinator that loads it sees the same generation, state, leader, members, subscriptions and '
                "per-member assignments, offsets untouched; in a Stable group every current member's sync (same assignment), heartbeat and commit are accepted "
@@ -44,3 +44,6 @@ SPEC['assumptions'].append("the new coordinator loads a group lazily, on the fir
 SPEC['level_text'] += " The generator regularly fails over immediately after an operation that removed a member (cleanup expiry, leave), the point where a missing persist shows as a view difference."
 SPEC['level_text'] += " C15_liveness_preserved: lastHeartbeat, session timeout (stores that keep timeouts) and the absence of a rebalance deadline survive the failover, so the expiry criterion gives the same verdict; the harness generates long heartbeat phases (longer than a session timeout) -> failover -> a request that loads the group -> cleanup tick -> member requests, and the oracle evaluates 'members of the Stable generation keep working' over all following operations incl. cleanup ticks until a join, a leave or an expiry that is due by the harness's own bookkeeping."
 SPEC['assumptions'].insert(0, "every coordinator operation holds c.mu from its first read of group state to its last store write (this is what makes the model's step relation atomic per operation, schedules = operation sequences). CHECKED by the harness on the real code: a gating store wrapper intercepts every store call the coordinator makes (Metadata, PutConsumerGroup, FetchConsumerGroup, DeleteConsumerGroup, CommitConsumerOffset) during every operation of every history and tests whether c.mu is free; if it is, the schedule's inner operations are run to completion on the same group while that store call is parked and the failure lock-released-across-store-call:<op>:<storecall> is reported with the schedule as replay (plus whatever the property oracles then observe); where the lock is held the inner operations run after the outer one, which is the order the lock enforces. Windows for every outer kind x inner kind are generated in every quick run.")
+SPEC['assumptions'] = [a for a in SPEC['assumptions'] if not a.startswith('store operations succeed')]
+SPEC['assumptions'].append("transient store failures ARE modelled (model/CoordinatorFaults.v, step relation stepf with a per-operation fault: load of the group / whole-group write / offset write fails) and injected by the harness's gating store wrapper into every operation kind (incl. the first join, leave, the leader's sync, cleanup's persist, the load after a failover); the *_under_store_faults theorems hold for arbitrary failures; claims that compare a coordinator with its successor (C15 view, C13/C12 across failover) need 'the last whole-group write succeeded' (synced), stated in the theorems. Not modelled and not injected: a failing store.Metadata in the leader's sync (collectTopicPartitions falls back to partition 0 per topic). The check needs fixes/C14-join-error-reply-no-members.patch.")
+SPEC['coq_deps'] = ['theories/corr/CoordinatorCorr.vo']
